@@ -1,7 +1,11 @@
 from props_common import COMMON_TRUSTED
 
 CONFIG = {
-    "areas": ["auth"],
+    # ctx: "Allowed accepts exactly when the rules accept" also for the reused checker state resolution decides with
+    # (ctx_allowed_eq_spec): its sequences keep / swap / remove the create, power-levels and join-rules events between checks -
+    # also for another event under the SAME event ID in the versions whose ID is a member of the event (seeded change C07-r5m2)
+    "areas": ["auth", "ctx"],
+    "op_filter": {"ctx": ["ctx.seq"]},
     "lean": ["VProps.C07"],
     "sources": ["VProps/C07.lean", "VModel/AuthRules.lean", "VProofs/AuthRulesBase.lean", "VProofs/AuthRulesEvents.lean",
                 "VProofs/AuthRulesMember.lean", "VProofs/AuthRulesNoPanic.lean", "VModel/Auth.lean", "VModel/Event.lean",
